@@ -38,33 +38,22 @@ func main() {
 	// 1. decorator chain
 	type d struct{ src, coq string }
 	var chain []d
-	if fd := af["NewAnteHandlerEVM"]; fd != nil && fd.Body != nil {
-		ast.Inspect(fd.Body, func(n ast.Node) bool {
-			call, ok := n.(*ast.CallExpr)
-			if !ok {
-				return true
-			}
-			if sel, ok := call.Fun.(*ast.SelectorExpr); ok && sel.Sel.Name == "ChainAnteDecorators" {
-				for _, a := range call.Args {
-					nm := calleeName(a)
-					c, ok := decNames[nm]
-					if !ok {
-						c = "DOther"
-					}
-					chain = append(chain, d{nm, c})
-				}
-				return false
-			}
-			return true
-		})
+	for _, a := range chainDecorators(af["NewAnteHandlerEVM"]) {
+		nm := calleeName(a)
+		c, ok := decNames[nm]
+		if !ok {
+			c = "DOther"
+		}
+		chain = append(chain, d{nm, c})
 	}
 
 	// 2. increment decorator: a guard that rejects compares tx nonce with the account sequence;
 	//    SetSequence(sequence+1) on that account, then SetAccount of it
 	incCheck, incReads, incPlusOne := "CmpUnknown", false, false
-	if fd := methodOf(evmante, "AnteDecEthIncrementSenderSequence", "AnteHandle"); fd != nil {
+	pkgFuncs = af
+	for _, fd := range reach(methodOf(evmante, "AnteDecEthIncrementSenderSequence", "AnteHandle"), af, 3) {
 		sc := newScope(fd)
-		seqExpr := ""
+		seqExpr, check := "", "CmpUnknown"
 		for _, g := range guardsOf(fd.Body) {
 			if !returnsError(g.body) {
 				continue
@@ -80,22 +69,26 @@ func main() {
 				seqExpr = c.rhs
 				switch c.op {
 				case token.NEQ:
-					incCheck = "CmpNeqRejects"
+					check = "CmpNeqRejects"
 				case token.LSS:
-					incCheck = "CmpLtRejects"
+					check = "CmpLtRejects"
 				}
 			case seqL && nonceR: // seq OP nonce
 				seqExpr = c.lhs
 				switch c.op {
 				case token.NEQ:
-					incCheck = "CmpNeqRejects"
+					check = "CmpNeqRejects"
 				case token.LSS: // seq < nonce  ==  nonce > seq
-					incCheck = "CmpGtRejects"
+					check = "CmpGtRejects"
 				}
 			}
 		}
+		if seqExpr == "" {
+			continue
+		}
+		incCheck = check
 		// the sequence compared is the one of the account looked up by the message's sender
-		incReads = seqExpr != "" && strings.Contains(seqExpr, ".GetAccount(") && strings.Contains(seqExpr, ".GetFrom()")
+		incReads = strings.Contains(seqExpr, ".GetAccount(") && strings.Contains(seqExpr, ".GetFrom()")
 		accExpr := strings.TrimSuffix(seqExpr, ".GetSequence()")
 		var setSeq token.Pos
 		ast.Inspect(fd.Body, func(n ast.Node) bool {
@@ -105,7 +98,7 @@ func main() {
 			}
 			switch calleeName(c) {
 			case "SetSequence":
-				if _, recv, ok := sc.methodCall(c, "SetSequence"); ok && len(c.Args) == 1 && seqExpr != "" &&
+				if _, recv, ok := sc.methodCall(c, "SetSequence"); ok && len(c.Args) == 1 &&
 					sc.canon(recv) == accExpr && sc.canon(c.Args[0]) == plusOne(seqExpr) {
 					setSeq = c.Pos()
 				}
@@ -213,6 +206,7 @@ func main() {
 	}
 
 	// 4. msg server: signer of the chain config; nonce bracket around Create/Call
+	pkgFuncs = kf
 	msgSigner := false
 	if fd := kf["EthereumTx"]; fd != nil && fd.Body != nil {
 		for _, s := range callsNamed(fd, kf, "AsMessage") {
@@ -224,14 +218,36 @@ func main() {
 		}
 	}
 	before, after := false, false
-	if fd := kf["ApplyEvmMsg"]; fd != nil && fd.Body != nil {
-		sc := newScope(fd)
-		evmParam := ""
-		for n, ty := range sc.ptype {
-			if ty == "*vm.EVM" {
-				evmParam = sc.params[n]
+	// functions that (transitively) run the EVM: evm.Create / evm.Call on a *vm.EVM parameter
+	runsEVM := map[*ast.FuncDecl]bool{}
+	for iter := 0; iter < 3; iter++ {
+		for _, f := range kf {
+			if f.Body == nil || runsEVM[f] {
+				continue
 			}
+			sc := newScope(f)
+			ast.Inspect(f.Body, func(n ast.Node) bool {
+				c, ok := n.(*ast.CallExpr)
+				if !ok {
+					return true
+				}
+				nm := calleeName(c)
+				if nm == "Create" || nm == "Call" {
+					if _, recv, ok := sc.methodCall(c, nm); ok {
+						if id, ok := sc.deref(recv).(*ast.Ident); ok && sc.ptype[id.Name] == "*vm.EVM" {
+							runsEVM[f] = true
+						}
+					}
+				}
+				if h, ok := kf[nm]; ok && runsEVM[h] && h != f {
+					runsEVM[f] = true
+				}
+				return true
+			})
 		}
+	}
+	for _, fd := range reach(kf["ApplyEvmMsg"], kf, 3) {
+		sc := newScope(fd)
 		var setN, setN1, firstExec, lastExec token.Pos
 		unconditional := map[token.Pos]bool{}
 		for _, st := range fd.Body.List { // statements at the top level of the function run on every path
@@ -244,29 +260,41 @@ func main() {
 			if !ok {
 				return true
 			}
-			switch calleeName(c) {
-			case "SetNonce":
-				if len(c.Args) == 2 && strings.HasSuffix(sc.canon(c.Args[0]), ".From()") {
-					a1 := sc.canon(c.Args[1])
-					if strings.HasSuffix(a1, ".Nonce()") && setN == token.NoPos {
-						setN = c.Pos()
-					}
-					if base, ok := minusOne(a1); ok && strings.HasSuffix(base, ".Nonce()") && unconditional[c.Pos()] {
-						setN1 = c.Pos()
+			nm := calleeName(c)
+			isExec := false
+			if nm == "Create" || nm == "Call" {
+				if _, recv, ok := sc.methodCall(c, nm); ok {
+					if id, ok := sc.deref(recv).(*ast.Ident); ok && sc.ptype[id.Name] == "*vm.EVM" {
+						isExec = true
 					}
 				}
-			case "Create", "Call":
-				if _, recv, ok := sc.methodCall(c, calleeName(c)); ok && evmParam != "" && sc.canon(recv) == evmParam {
-					if firstExec == token.NoPos {
-						firstExec = c.Pos()
-					}
-					lastExec = c.Pos()
+			}
+			if h, ok := kf[nm]; ok && runsEVM[h] && h != fd {
+				isExec = true
+			}
+			if isExec {
+				if firstExec == token.NoPos {
+					firstExec = c.Pos()
+				}
+				lastExec = c.Pos()
+			}
+			if nm == "SetNonce" && len(c.Args) == 2 && strings.HasSuffix(sc.canon(c.Args[0]), ".From()") {
+				a1 := sc.canon(c.Args[1])
+				if strings.HasSuffix(a1, ".Nonce()") && setN == token.NoPos {
+					setN = c.Pos()
+				}
+				if base, ok := minusOne(a1); ok && strings.HasSuffix(base, ".Nonce()") && unconditional[c.Pos()] {
+					setN1 = c.Pos()
 				}
 			}
 			return true
 		})
-		before = setN != token.NoPos && firstExec != token.NoPos && setN < firstExec && unconditional[setN]
-		after = setN1 != token.NoPos && lastExec != token.NoPos && setN1 > lastExec
+		if setN != token.NoPos && firstExec != token.NoPos && setN < firstExec && unconditional[setN] {
+			before = true
+		}
+		if setN1 != token.NoPos && lastExec != token.NoPos && setN1 > lastExec {
+			after = true
+		}
 	}
 	createAddr := false
 	if fd := kf["EmitEthereumTxEvents"]; fd != nil && fd.Body != nil {
